@@ -1269,6 +1269,23 @@ where
 
                 trace!("Client message: {}", code);
 
+                // During COPY ... FROM STDIN the server is read again only when the COPY ends. Anything
+                // else than COPY messages (and Flush, which is not forwarded) would be answered out of
+                // step, with replies left unread for the next client: give the connection up.
+                if server.in_copy_mode() && !matches!(code, 'd' | 'c' | 'f' | 'H') {
+                    server.mark_bad("message other than COPY data while in copy-mode");
+                    error_response_terminal(
+                        &mut self.write,
+                        "unexpected message during COPY from stdin",
+                    )
+                    .await?;
+                    self.stats.disconnect();
+                    return Err(Error::ProtocolSyncError(format!(
+                        "message '{}' while in copy-mode",
+                        code
+                    )));
+                }
+
                 match code {
                     // Query
                     'Q' => {
